@@ -198,13 +198,23 @@ class Gen:
                     ci = r.sample(range(len(consts)), min(3, len(consts)))
                     cases = " ".join("case (unsigned char) (%s) + %d: l2 = SADD (l2, %d); %s" % (consts[c], 300 * j, j + 1, "break;" if r.random() < 0.7 else "") for j, c in enumerate(ci))
                     body.append("  switch ((%s) & 1023) { %s default: l2 = SADD (l2, -1); }" % (self.expr(2, locs=locs), cases))
-                elif k < 0.72:
+                elif k < 0.76:
                     kk = r.random()
-                    if kk < 0.3:
+                    if kk < 0.2:
                         body.append("  { struct S t = gs; %s = %s; %s = %s; t.in.x++; %s ^= (unsigned char) (%s + %s); if (t.in.x & 1) gs = t; }"
                                     % (self.member_lv("t."), self.expr(2, locs=locs), self.member_lv("t."), self.expr(2, locs=locs), self.member_lv("gs."),
                                        self.member_read("t."), self.member_read("t.")))
-                    elif kk < 0.65:
+                    elif kk < 0.45:
+                        # automatic objects with (partial, designated) brace initialisers: the members without initialiser are zero
+                        k1 = r.randint(0, len(self.members))
+                        init = ", ".join(self.expr(1, locs=locs) for _ in range(k1)) or "0"
+                        des = r.sample(self.members, min(len(self.members), r.randint(1, 3)))
+                        dinit = ", ".join(".%s = %s" % (m[0], self.expr(1, locs=locs)) for m in des)
+                        body.append("  { struct S t = {%s}, u = {%s}; struct S v[2] = {{%s}, [1].%s = %s}; l%d ^= %s; l%d = SADD (l%d, %s); l%d ^= %s; %s = %s; }"
+                                    % (init, dinit, self.lit(), r.choice(self.members)[0], self.expr(1, locs=locs), r.randint(0, 2), " ^ ".join("(long long) t.%s" % m[0] for m in self.members),
+                                       r.randint(0, 2), r.randint(0, 2), " ^ ".join("(long long) u.%s" % m[0] for m in self.members) + " ^ u.in.x ^ (long long) u.in.y",
+                                       r.randint(0, 2), " ^ ".join("(long long) v[%d].%s" % (r.randint(0, 1), m[0]) for m in self.members), self.member_lv("gs."), self.member_read("t.")))
+                    elif kk < 0.7:
                         # the same object through its name and through a pointer, members written and read back in sequence
                         st = []
                         for _ in range(r.randint(2, 5)):
@@ -343,7 +353,7 @@ def run(tier):
     th = tier == "thorough"
     seed = int(common.seed())
     c2m = os.path.join(build.build_lib("asan"), "c2m")
-    n = 5000 if th else 160
+    n = 5000 if th else 400
     tmp = tempfile.mkdtemp(prefix="vp-c07-")
     try:
         pp = os.path.join(tmp, "probe.c")
